@@ -278,22 +278,57 @@ def buffer_dtype_obligations(idx, rep, init, rule, operand_names=("start_vector"
 
 
 def first_column_obligation(idx, rep, init, column, construct):
-    """the start vector (second parameter of the initialiser) is divided by its own norm -- not in place -- and stored in the given column"""
+    """the value stored in the given column of the basis is the start vector (second parameter of the initialiser) divided by its own
+    norm -- under any layout: re-bound (`rhs = rhs / norm`), inline (`update_array(Q, (rhs / norm).T, ...)`) or through temporaries --
+    and the caller's array is not normalised in place"""
     iasg = df.assignments(init.node)
     rhs = init.params[1]
+    rebinds = [st for v, p, st in iasg.get(rhs, [])]
 
-    def is_norm_of_rhs(e):
-        e = df.resolve_value(init.node, e)
-        return isinstance(e, ast.Call) and df.is_xnp_call(e) == "norm" and e.args and nospace(e.args[0]) == rhs
+    def value_of(e, seen=()):
+        """e without copies / transposes, with singly-bound names replaced by their values (a name inside its own re-binding is the
+        earlier value)"""
+        while True:
+            if isinstance(e, ast.Call) and df.is_xnp_call(e) in ("copy", "array", "cast") and e.args:
+                e = e.args[0]
+            elif isinstance(e, ast.Attribute) and e.attr in ("T", "mT"):
+                e = e.value
+            elif isinstance(e, ast.Name) and e.id not in seen:
+                asg = iasg.get(e.id, [])
+                plain = [v for v, p, st in asg if p is None and not isinstance(v, ast.AugAssign)]
+                if len(asg) == 1 and len(plain) == 1:
+                    seen = seen + (e.id, )
+                    e = plain[0]
+                else:
+                    return e, seen
+            else:
+                return e, seen
 
-    divided = any(isinstance(v, ast.BinOp) and isinstance(v.op, ast.Div) and nospace(v.left) == rhs and is_norm_of_rhs(v.right) for v, p, st in iasg.get(rhs, []))
+    def is_start(e, seen):
+        e, seen = value_of(e, seen)
+        return isinstance(e, ast.Name) and e.id == rhs
+
+    def is_norm_of_start(e, seen):
+        e, _ = value_of(e, seen)
+        if not (isinstance(e, ast.Call) and df.is_xnp_call(e) == "norm" and e.args and nospace(e.args[0]) == rhs):
+            return False
+        # taken of the vector as passed in: before any re-binding of the name
+        return all(getattr(e, "lineno", 0) <= getattr(st, "lineno", 0) for st in rebinds)
+
+    stores = [c for c in df.calls(init.node) if df.is_xnp_call(c) == "update_array" and len(c.args) >= 2 and nospace(c.args[-1]) == column]
+    any_store = [c for c in df.calls(init.node) if df.is_xnp_call(c) == "update_array" and len(c.args) >= 2 and rhs in df.names_in(c.args[1])]
+    divided = False
+    for c in stores:
+        v, seen = value_of(c.args[1])
+        if isinstance(v, ast.BinOp) and isinstance(v.op, ast.Div) and is_start(v.left, seen) and is_norm_of_start(v.right, seen):
+            divided = True
     inplace = any(isinstance(n, ast.AugAssign) and nospace(n.target) == rhs for n in df.body_nodes(init.node))
-    stores = [c for c in df.calls(init.node) if df.is_xnp_call(c) == "update_array" and len(c.args) >= 2 and rhs in df.names_in(c.args[1])]
-    col_ok = bool(stores) and nospace(stores[0].args[-1]) == column
-    copied = bool(stores) and "copy(" in nospace(stores[0].args[1])
+    col_ok = bool(stores)
+    shown = stores or any_store
+    copied = bool(shown) and "copy(" in nospace(shown[0].args[1])
     ok = divided and col_ok and not inplace
     rep.decide(ok, "first-column", construct, f"start vector {'divided by its norm' if divided else 'NOT normalised'}{' IN PLACE' if inplace else ''}, stored in column "
-               f"{nospace(stores[0].args[-1]) if stores else '?'}{' (copy)' if copied else ''}", detail="" if ok else "first-column", locs=[idx.loc(init.module, init.node)])
+               f"{nospace(shown[0].args[-1]) if shown else '?'}{' (copy)' if copied else ''}", detail="" if ok else "first-column", locs=[idx.loc(init.module, init.node)])
 
 
 # ------------------------------------------------------------------------------------------------
